@@ -151,6 +151,11 @@ def correspondence(ctx):
     rng = ctx.rng
     # full statements kept as `def … .Statement : Prop` (not proved) are listed by name in the evidence
     ctx.extra['open_statements'] = list(OPEN_STATEMENTS)
+    ctx.extra['clauses_without_lean_counterpart'] = [
+        'orthonormality of load_upb kinds quadres / gentiles1 / gentiles2 (probe only, all tied sizes)',
+        'unextendibility of every UPB (literature)',
+        'closed-form REE/EOF/GME equal the true (optimised) measures: tied to the value formulas of the model, probed against get_eof_2qubit/get_gme_2qubit (d=2), get_ppt_ree (d=2,3(,4)), pure end point (d<=8)',
+        'Chebyshev basis2/basis3 phases, projector list, with_computational_basis (tied/probed)']
     delta = dict(rational=0.0, floatops=0.0)
 
     def run(ops, impl, tol, kind, key=None):
